@@ -4,7 +4,8 @@
    heap memory safety of the C program is not modelled (sanitizer-assisted search, see props/c19.py). *)
 From Coq Require Import List NArith Arith Lia.
 From Cproc Require Import Model.Map Proofs.MapProofs Model.Zero Proofs.ZeroProofs.
-From Cproc Require Properties.Properties_C04 Properties.Properties_C14 Properties.Properties_C15 Properties.Properties_C03.
+From Cproc Require Properties.Properties_C04 Properties.Properties_C14 Properties.Properties_C15 Properties.Properties_C03
+     Properties.Properties_C13 Properties.Properties_C12 Properties.Properties_C08.
 Import ListNotations.
 
 (* keyindex's probe loop ends within cap steps on every table any history can produce (any hash). *)
@@ -72,3 +73,28 @@ Print Assumptions C19_stringconcat_safe.
 Theorem C19_emitfunc_terminates : ltac:(let t := type of Properties_C03.C03_builder_inv in exact t).
 Proof. exact Properties_C03.C03_builder_inv. Qed.
 Print Assumptions C19_emitfunc_terminates.
+
+(* scan.c: scan() returns a token (or a diagnosed error) on every scanner state and every input with fuel
+   length+2, i.e. the scanner loop always makes progress and never runs off the end of the text *)
+Theorem C19_scanner_terminates : ltac:(let t := type of Properties_C13.C13_scan_refines_lex in exact t).
+Proof. exact Properties_C13.C13_scan_refines_lex. Qed.
+Print Assumptions C19_scanner_terminates.
+
+(* pp.c: object-like macro replacement terminates on every table and every text (self-reference included),
+   within the explicit bound `bound tb l`, and a painted token is never expanded again *)
+Theorem C19_objlike_expansion_terminates : ltac:(let t := type of Properties_C12.C12_objlike_refines in exact t).
+Proof. exact Properties_C12.C12_objlike_refines. Qed.
+Print Assumptions C19_objlike_expansion_terminates.
+
+Theorem C19_painted_never_expanded : ltac:(let t := type of Properties_C12.C12_painted_never_expanded in exact t).
+Proof. exact Properties_C12.C12_painted_never_expanded. Qed.
+Print Assumptions C19_painted_never_expanded.
+
+(* qbe.c: the member walk of emittype terminates (fuel = number of members + 1 is always enough) *)
+Theorem C19_emittype_walk_terminates : ltac:(let t := type of Properties_C08.C08_walk_fuel_enough in exact t).
+Proof. exact Properties_C08.C08_walk_fuel_enough. Qed.
+Print Assumptions C19_emittype_walk_terminates.
+
+Theorem C19_emittype_body_total : ltac:(let t := type of Properties_C08.C08_body_never_fuel_error in exact t).
+Proof. exact Properties_C08.C08_body_never_fuel_error. Qed.
+Print Assumptions C19_emittype_body_total.
